@@ -16,7 +16,7 @@ def run(ctx):
                 "SqliteRunLifecycleLock; distinct key = (scenario kind, idle_timeout, store mode, #releases, #reloads, "
                 "#idle marks, #sends, outcome, findings)")
     ctx.prove()
-    run_inprocess(ctx, "C36", ctx.n(66, 4000), THEOREMS, need=(("undisturbed_idle_periods", 10),))
+    run_inprocess(ctx, "C36", ctx.n(66, 4000), THEOREMS, need=(("undisturbed_idle_periods", 10), ("sent_inside_a_release", 2)))
 
     # ---- DBOS stack
     from suites import lifecycle as L
